@@ -31,7 +31,7 @@ func (d *directivesAreDefinedVisitor) EnterDocument(operation, definition *ast.D
 func (d *directivesAreDefinedVisitor) EnterDirective(ref int) {
 
 	directiveName := d.operation.DirectiveNameBytes(ref)
-	definition, exists := d.definition.Index.FirstNodeByNameBytes(directiveName)
+	definition, exists := d.definition.Index.FirstDirectiveDefinitionByNameBytes(directiveName)
 
 	if !exists || definition.Kind != ast.NodeKindDirectiveDefinition {
 		d.StopWithExternalErr(operationreport.ErrDirectiveUndefined(directiveName))
